@@ -112,8 +112,12 @@ func encodeProcessorOptions(opt *ProcessorOptions) *internal.ProcessorOptions {
 	}
 
 	// Fill value can only be a number. Set it if available.
-	if v, ok := opt.FillValue.(float64); ok {
+	// The parser keeps fill(5) as int64 and fill(5.0) as float64.
+	switch v := opt.FillValue.(type) {
+	case float64:
 		pb.FillValue = v
+	case int64:
+		pb.FillValue = float64(v)
 	}
 
 	// Set condition, if set.
